@@ -4,5 +4,6 @@ CONSTANTS
   MaxCount = 6
   AsCoded = FALSE
   Crashes = FALSE
+  Batched = TRUE
 INVARIANT Report
 CHECK_DEADLOCK FALSE
